@@ -381,7 +381,10 @@ def correspondence(ctx):
         src = gen_tree(rng, rng.choice([2, 2, 3]), env)
         trees.append({'src': src, 'env': env})
     values = ['(1, 2)', '()', '[0, 0.0]', '{"count": 7, "ratio": 7.0}', '[7, 7.0]', '(1, "a", 2.5)', '[[1], [2.5]]', '{"a": [1, 2], "b": []}',
-              '[True, 1]', '{"k": (1, 2)}', 'set()', '[None, 1]'] + [gen_value(rng, 3) for _ in range(300 if ctx.tier == 'quick' else 3000)]
+              '[True, 1]', '{"k": (1, 2)}', 'set()', '[None, 1]',
+              # dicts whose keys are not literals (tuples) and whose values differ in type: one pair per entry in the pedal type
+              '{(1, 2): "a", (3, 4): 5}', '{(1,): [1], (2,): ["s"]}', '[{(): 1, (1,): "x"}]', '({(1, 2): {}, (3, 4): []},)',
+              '{(1, 2): "a", (3, 4): "b"}', '{(1, "k"): 1.5, (2, "k"): None, "plain": (1, 2)}'] + [gen_value(rng, 3) for _ in range(300 if ctx.tier == 'quick' else 3000)]
     res = vlib.run_impl('c19_impl.py', {'cells': cells, 'trees': trees, 'values': values}, timeout=1500)
     # (a) the CPython specification table of the model vs the live interpreter; (b) the model's table vs real TIFA
     spec_items, tifa_items, cmp_spec_items, cmp_items = [], [], [], []
